@@ -163,6 +163,17 @@ def py_parse(tokens):
         return 'err'
 
 
+def flatten(t):
+    """homogeneous and/or chains evaluate identically whichever way they nest (left-to-right short-circuit): compare modulo associativity"""
+    if not isinstance(t, tuple) or t[0] not in ('and', 'or'): return t
+    op = t[0]; items = []
+    def walk(x):
+        if isinstance(x, tuple) and x[0] == op: walk(x[1]); walk(x[2])
+        else: items.append(flatten(x))
+    walk(t)
+    return (op,) + tuple(items)
+
+
 OPS = {'Equals': '==', 'NotEquals': '!=', 'LessThan': '<', 'GreaterThan': '>', 'LessThanEquals': '<=', 'GreaterThanEquals': '>=', 'Contains': 'contains'}
 
 
@@ -196,7 +207,7 @@ def token_lists(max_atoms):
 
 def ob_parse_condition(chk, P, max_atoms):
     with chk.obligation('parse_condition/grouping', "the condition parser builds the tree of the grammar cond := conj ('or' conj)*, conj := atom ('and' atom)*, atom := value (cmp value)? -- "
-                        "'and' binds tighter than 'or', chains associate to the left, every comparison operator maps to its own variant; malformed token streams are errors, never panics",
+                        "'and' binds tighter than 'or' (trees compared modulo associativity of homogeneous chains, which evaluate alike), every comparison operator maps to its own variant; malformed token streams are errors, never panics",
                         {'token streams': f'all well-formed streams with up to {max_atoms} atoms (bare or comparison) x all and/or connective choices, plus 8 malformed streams'}) as ob:
         ex = Executor(P, models_with([])); ex.seed = chk.seed
         fn = P.find(r'^fn if_block::parse_condition\(', 'lib')
@@ -215,7 +226,8 @@ def ob_parse_condition(chk, P, max_atoms):
                     if want != 'err': bad = f'rejected, expected {want}'
                 else:
                     got = tree_of(s2, val.items[0])
-                    if got != want: bad = f'parsed as {got}, expected {want}'
+                    if want == 'err': bad = f'accepted as {got}, expected a parse error'
+                    elif flatten(got) != flatten(want): bad = f'parsed as {got}, expected {want}'
             if bad:
                 sc = and_or_scenario()
                 ob.violation('parse_condition/grouping', f'tokens {[t[1] for t in toks]}: {bad}', {'tokens': repr(toks)}, sc, tpl_conf(sc))
@@ -227,14 +239,15 @@ def ob_parse_condition(chk, P, max_atoms):
 def ob_binary(chk, P):
     with chk.obligation('BinaryCondition::evaluate/operators', 'each comparison operator yields the corresponding relation of the value model on the two operand values (integers x integers, integers x floats), '
                         'operands evaluated left then right, operand errors returned',
-                        {'operands': 'all i64 x i64 and i64 x f64 pairs', 'operators': '== != < > <= >='}) as ob:
+                        {'operands': 'all pairs of {i64, f64} x {i64, f64} values', 'operators': '== != < > <= >='}) as ob:
         ex = Executor(P, models_with([])); ex.seed = chk.seed
         fn = P.find_method('BinaryCondition', 'evaluate', None, 'lib')
-        a = z3.BitVec('a', 64); b = z3.BitVec('b', 64); fb = z3.FP('fb', z3.Float64())
-        for rk in ('int', 'float'):
+        a = z3.BitVec('a', 64); b = z3.BitVec('b', 64); fb = z3.FP('fb', z3.Float64()); fa_ = z3.FP('fa', z3.Float64())
+        for lk, rk in (('int', 'int'), ('int', 'float'), ('float', 'int'), ('float', 'float')):
             for opname, rel in (('Equals', '=='), ('NotEquals', '!='), ('LessThan', '<'), ('GreaterThan', '>'), ('LessThanEquals', '<='), ('GreaterThanEquals', '>=')):
                 st = State()
-                lh = expr_stub(value_scalar(scalar_int(Int(a, 'i64'))), 'lh', True)
+                lv = value_scalar(scalar_int(Int(a, 'i64'))) if lk == 'int' else value_scalar(scalar_float(Float(fa_)))
+                lh = expr_stub(lv, 'lh', True)
                 rv = value_scalar(scalar_int(Int(b, 'i64'))) if rk == 'int' else value_scalar(scalar_float(Float(fb)))
                 rh = expr_stub(rv, 'rh', True)
                 self_ = st.ref(Adt('BinaryCondition', None, [lh, Adt('ComparisonOperator', opname, []), rh], ['lh', 'comparison', 'rh']))
@@ -252,24 +265,25 @@ def ob_binary(chk, P):
                     if val.variant != 'Ok':
                         ob.violation(f'BinaryCondition/{opname}/spurious-error', f'{opname} fails on numbers', {}, ops_scenario(), tpl_conf(ops_scenario())); continue
                     r = val.items[0].e
-                    if rk == 'int':
+                    if rk == 'int' and lk == 'int':
                         exp = {'==': a == b, '!=': a != b, '<': a < b, '>': a > b, '<=': a <= b, '>=': a >= b}[rel]
                     else:
-                        fa = z3.fpSignedToFP(z3.RNE(), a, z3.Float64())
-                        exp = {'==': z3.fpEQ(fa, fb), '!=': z3.Not(z3.fpEQ(fa, fb)), '<': z3.fpLT(fa, fb), '>': z3.fpGT(fa, fb), '<=': z3.fpLEQ(fa, fb), '>=': z3.fpGEQ(fa, fb)}[rel]
+                        fa = z3.fpSignedToFP(z3.RNE(), a, z3.Float64()) if lk == 'int' else fa_
+                        fbb = z3.fpSignedToFP(z3.RNE(), b, z3.Float64()) if rk == 'int' else fb
+                        exp = {'==': z3.fpEQ(fa, fbb), '!=': z3.Not(z3.fpEQ(fa, fbb)), '<': z3.fpLT(fa, fbb), '>': z3.fpGT(fa, fbb), '<=': z3.fpLEQ(fa, fbb), '>=': z3.fpGEQ(fa, fbb)}[rel]
                     m = ob.decide(ex, s2.conds, r != exp)
                     if m is not None:
-                        av = m.eval(a, model_completion=True).as_signed_long()
+                        av = m.eval(a, model_completion=True).as_signed_long() if lk == 'int' else fp_to_float(m.eval(fa_, model_completion=True))
                         bv = m.eval(b, model_completion=True).as_signed_long() if rk == 'int' else fp_to_float(m.eval(fb, model_completion=True))
                         sc = ops_scenario()
                         ob.violation(f'BinaryCondition/{opname}', f'{av} {rel} {bv} evaluates to {m.eval(r, model_completion=True)}', {'a': av, 'b': str(bv)}, sc, tpl_conf(sc))
-                ob.sample({'operator': opname, 'rhs': rk})
+                ob.sample({'operator': opname, 'lhs': lk, 'rhs': rk})
         ob.absorb(ex)
 
 
 def ops_scenario():
     t = ''; exp = ''
-    pool = [(1, 2), (2, 1), (2, 2), (-1, 1), (1, 1.5), (2, 2.0), (3, 2.5)]
+    pool = [(1, 2), (2, 1), (2, 2), (-1, 1), (1, 1.5), (2, 2.0), (3, 2.5), (1.5, 2), (2.5, 2), (2.0, 2), (1.5, 2.5), (2.5, 1.5)]
     for x, y in pool:
         for op, f in (('==', lambda: x == y), ('!=', lambda: x != y), ('<', lambda: x < y), ('>', lambda: x > y), ('<=', lambda: x <= y), ('>=', lambda: x >= y), ('<>', lambda: x != y)):
             t += '{% if ' + f'{x} {op} {y}' + ' %}1{% else %}0{% endif %}'
